@@ -712,6 +712,12 @@ type rcHist struct {
 	brokenCh  chan struct{} // closed when broken is set: calls queued behind the dead lock give up at once
 	brokenOne sync.Once
 
+	heldGen, heldCnt int // streams kept open by ordinary calls on the current connection (under mu)
+
+	parkMode  atomic.Int32  // which hook parks the next call that passes it
+	parkedCh  chan struct{} // closed by the parked call (under mu)
+	releaseCh chan struct{} // closed by the harness to let it go on (under mu)
+
 	rc client.Client
 }
 
@@ -785,6 +791,7 @@ func (h *rcHist) configFunc() (*client.Config, error) {
 
 func (h *rcHist) connectedFunc(c client.Client, info *client.HandshakeInfo, n int) {
 	in := client.VerifInner(c)
+	client.VerifGate(c, h.hookBefore, h.hookAfter)
 	h.mu.Lock()
 	h.connArgs = append(h.connArgs, n)
 	if len(h.socks) > 0 {
@@ -974,17 +981,19 @@ func rcClassify(err error) string {
 }
 
 // call runs one TCP()/UDP() on the reconnectable client with a watchdog.
-func (h *rcHist) call(kind byte, hold bool) string {
-	type res struct {
-		s string
-		c io.Closer
-	}
-	ch := make(chan res, 1)
+type rcCallRes struct {
+	s string
+	c io.Closer
+}
+
+// startCall runs one TCP()/UDP() on the reconnectable client in its own goroutine.
+func (h *rcHist) startCall(kind byte) <-chan rcCallRes {
+	ch := make(chan rcCallRes, 1)
 	rc := h.rc
 	go func() {
 		defer func() {
 			if r := recover(); r != nil {
-				ch <- res{s: "panic(" + strings.ReplaceAll(fmt.Sprint(r), " ", "_") + ")"}
+				ch <- rcCallRes{s: "panic(" + strings.ReplaceAll(fmt.Sprint(r), " ", "_") + ")"}
 			}
 		}()
 		switch kind {
@@ -992,9 +1001,9 @@ func (h *rcHist) call(kind byte, hold bool) string {
 			u, err := rc.UDP()
 			if err != nil {
 				h.noteErr(err)
-				ch <- res{s: rcClassify(err)}
+				ch <- rcCallRes{s: rcClassify(err)}
 			} else {
-				ch <- res{s: "ok", c: closerFunc(u.Close)}
+				ch <- rcCallRes{s: "ok", c: closerFunc(u.Close)}
 			}
 		default:
 			addr := "ok.verif:80"
@@ -1004,33 +1013,157 @@ func (h *rcHist) call(kind byte, hold bool) string {
 			c, err := rc.TCP(addr)
 			if err != nil {
 				h.noteErr(err)
-				ch <- res{s: rcClassify(err)}
+				ch <- rcCallRes{s: rcClassify(err)}
 			} else {
-				ch <- res{s: "ok", c: c}
+				ch <- rcCallRes{s: "ok", c: c}
 			}
 		}
 	}()
+	return ch
+}
+
+func (h *rcHist) settleCall(r rcCallRes, hold bool) string {
+	if strings.HasPrefix(r.s, "panic") {
+		h.markBroken() // clientDo does not unlock on a panic
+	}
+	if r.c != nil {
+		if hold {
+			h.mu.Lock()
+			h.held = append(h.held, r.c)
+			h.mu.Unlock()
+		} else {
+			_ = r.c.Close()
+		}
+	}
+	return r.s
+}
+
+// waitCall waits for a started call with a watchdog.
+func (h *rcHist) waitCall(ch <-chan rcCallRes, hold bool) string {
 	select {
 	case r := <-ch:
-		if strings.HasPrefix(r.s, "panic") {
-			h.markBroken() // clientDo does not unlock on a panic
-		}
-		if r.c != nil {
-			if hold {
-				h.mu.Lock()
-				h.held = append(h.held, r.c)
-				h.mu.Unlock()
-			} else {
-				_ = r.c.Close()
-			}
-		}
-		return r.s
+		return h.settleCall(r, hold)
 	case <-h.brokenCh:
 		return "hang"
 	case <-time.After(20 * time.Second):
 		h.markBroken()
 		return "hang"
 	}
+}
+
+// call runs one TCP()/UDP() on the reconnectable client with a watchdog.
+func (h *rcHist) call(kind byte, hold bool) string { return h.waitCall(h.startCall(kind), hold) }
+
+// holdCapped: ordinary calls of a sequential history keep at most 4 streams open per connection
+// (the rest are closed at once), so that the server's stream limit (8) is reached only by the
+// fill op, which holds everything and confirms the saturation — not by accident, where the exact
+// call that hits the limit would depend on when the credits of closed streams come back.
+func (h *rcHist) holdCapped() bool {
+	h.mu.Lock()
+	defer h.mu.Unlock()
+	if gen := len(h.connArgs); gen != h.heldGen {
+		h.heldGen, h.heldCnt = gen, 0
+	}
+	if h.heldCnt >= 4 {
+		return false
+	}
+	h.heldCnt++
+	return true
+}
+
+// ---- parking one call between clientDo's two lock regions (the gate around the inner client)
+
+const (
+	parkNone   = 0
+	parkBefore = 1 // before the inner client's TCP()/UDP() is entered
+	parkAfter  = 2 // after it has returned (its error not yet processed by clientDo)
+)
+
+func (h *rcHist) hookBefore(kind byte) { h.maybePark(parkBefore) }
+
+func (h *rcHist) hookAfter(kind byte, err error) { h.maybePark(parkAfter) }
+
+func (h *rcHist) maybePark(where int32) {
+	if !h.parkMode.CompareAndSwap(where, parkNone) {
+		return
+	}
+	h.mu.Lock()
+	parked, release := h.parkedCh, h.releaseCh
+	h.mu.Unlock()
+	close(parked)
+	select {
+	case <-release:
+	case <-h.brokenCh:
+	case <-time.After(60 * time.Second):
+	}
+}
+
+// lateError drives the schedule  B.begin … kill … A (sees the loss, drops the client) … C
+// (reconnects) … B.end (its ClosedError from the REPLACED client arrives only now):
+//
+//	when 'a': B is parked before it enters the inner client, then the kill
+//	when 'b': the kill first, then B, parked after the inner client has answered
+//
+// Returns B's first state ("parked" or its result if it never reached the inner client), the kill
+// result, A's, C's and B's final result ("-" if B had returned early).
+func (h *rcHist) lateError(kb byte, when byte, orc *[]string) (b0, k, ra, rc, rb string) {
+	doKill := func() string {
+		n, problem := h.kill(true)
+		if problem != "" {
+			*orc = append(*orc, problem)
+		}
+		if n > 0 {
+			return "kill"
+		}
+		return "nokill"
+	}
+	if when == 'b' {
+		k = doKill()
+	}
+	h.mu.Lock()
+	h.parkedCh, h.releaseCh = make(chan struct{}), make(chan struct{})
+	parked, release := h.parkedCh, h.releaseCh
+	h.mu.Unlock()
+	if when == 'a' {
+		h.parkMode.Store(parkBefore)
+	} else {
+		h.parkMode.Store(parkAfter)
+	}
+	_, connB, _, _ := h.snapshot()
+	bch := h.startCall(kb)
+	isParked := false
+	select {
+	case <-parked:
+		isParked = true
+		b0 = "parked"
+	case r := <-bch:
+		b0 = h.settleCall(r, h.holdCapped())
+	case <-time.After(20 * time.Second):
+		h.markBroken()
+		b0 = "hang"
+	}
+	h.parkMode.Store(parkNone)
+	if when == 'a' {
+		k = doKill()
+	}
+	ra = h.call('T', h.holdCapped())
+	rc = h.call('T', h.holdCapped())
+	rb = "-"
+	if isParked {
+		cfg0, conn0, open0, _ := h.snapshot()
+		close(release)
+		rb = h.waitCall(bch, h.holdCapped())
+		cfg1, conn1, open1, _ := h.snapshot()
+		if cfg1 != cfg0 || len(conn1) != len(conn0) {
+			*orc = append(*orc, "a returning call evaluated the configuration / connected")
+		}
+		if len(conn0) > len(connB) && rb == "closed" && rcInts(open0) != rcInts(open1) {
+			*orc = append(*orc, fmt.Sprintf("a late closed-connection error from an already replaced client changed the open factory sockets %v → %v: the healthy current client was touched", open0, open1))
+		}
+	} else {
+		close(release)
+	}
+	return
 }
 
 func (h *rcHist) markBroken() {
@@ -1189,7 +1322,7 @@ func (c *reconnectComp) runSeq(ops []string) vh.Result {
 		if i := strings.IndexByte(tok, ':'); i >= 0 {
 			kind, a = tok[:i], tok[i+1:]
 		}
-		if a != "" && !rcAtts[a] {
+		if a != "" && kind != "X" && !rcAtts[a] {
 			return vh.Result{Out: "bad-op"}
 		}
 		res := ""
@@ -1239,7 +1372,7 @@ func (c *reconnectComp) runSeq(ops []string) vh.Result {
 			if kind == "F" {
 				res = h.fill()
 			} else {
-				res = h.call(kind[0], true)
+				res = h.call(kind[0], h.holdCapped())
 			}
 			cfg1, conn1, open1, _ := h.snapshot()
 			if strings.HasPrefix(res, "unknown") || strings.HasPrefix(res, "panic") || res == "hang" || res == "nofill" {
@@ -1289,6 +1422,36 @@ func (c *reconnectComp) runSeq(ops []string) vh.Result {
 					if res == "closed" && len(open1) != 0 {
 						orc = append(orc, fmt.Sprintf("a lost connection was reported (closed) but its factory socket is still open: %v", open1))
 					}
+				}
+			}
+		case "X":
+			if len(a) != 2 || (a[0] != 'T' && a[0] != 'U') || (a[1] != 'a' && a[1] != 'b') {
+				return vh.Result{Out: "bad-op"}
+			}
+			if h.rc == nil {
+				res = "nostart"
+				break
+			}
+			att = "ok"
+			b0, k, ra, rcc, rb := h.lateError(a[0], a[1], &orc)
+			res = "x." + b0 + "." + k + "." + ra + "." + rcc + "." + rb
+			for _, r := range []string{b0, ra, rcc, rb} {
+				if strings.HasPrefix(r, "unknown") || strings.HasPrefix(r, "panic") || r == "hang" {
+					orc = append(orc, "late-error schedule "+tok+" → "+res)
+				}
+			}
+			if closedByOp {
+				if ra != "closed" || rcc != "closed" {
+					orc = append(orc, fmt.Sprintf("calls after Close returned %s, %s; want closed", ra, rcc))
+				}
+			} else {
+				// what the NEXT call must do depends on C's outcome only: B's error is about a client
+				// that is no longer the current one
+				switch rcc {
+				case "ok", "recoverable", "other":
+					needConnect = false
+				default:
+					needConnect = true
 				}
 			}
 		case "K":
@@ -1555,6 +1718,10 @@ func (c *reconnectComp) Gen(r *vh.RNG, n int, emit func(op string, tags ...strin
 		"seq E:rt E:tls E:new E:ok K T:rt U:auth T:ok",
 		"seq L C T:ok U:ok",
 		"seq L T:ok R:ok K K U:cfg U:ok K C C T:ok",
+		"seq L T:ok X:Tb T:ok U:ok C",
+		"seq E:ok X:Ua U:ok T:ok",
+		"seq L T:ok X:Ta C T:ok",
+		"seq E:ok X:Ub T:ok X:Tb U:ok C",
 	}
 	for i := 0; i < n; i++ {
 		if i < len(fixed) {
@@ -1605,6 +1772,9 @@ func (c *reconnectComp) Gen(r *vh.RNG, n int, emit func(op string, tags ...strin
 			case x < 60:
 				ops = append(ops, "F:"+att(hr, false))
 				tags["stream-limit"] = true
+			case x < 66:
+				ops = append(ops, "X:"+[]string{"Ta", "Tb", "Ua", "Ub"}[hr.Intn(4)])
+				tags["late-error"] = true
 			case x < 88:
 				ops = append(ops, "K")
 				tags["kill"] = true
